@@ -31,6 +31,7 @@ type expSub struct {
 	pending  int   // delivered but not yet read
 	status   string
 	lost     bool // the server dropped it for being full: nothing more is owed
+	got      []int
 }
 
 func satisfies(q *query.Query, ev map[string][]string) bool {
@@ -40,7 +41,13 @@ func satisfies(q *query.Query, ev map[string][]string) bool {
 
 func oracle(c core.Case, out []string) []core.Finding {
 	var fs []core.Finding
+	busTxAllIndexed := map[int]bool{}
+	inBus := false
 	add := func(fp, desc string) {
+		if inBus && strings.HasPrefix(fp, "pubsub.") {
+			fp = "eventbus." + fp[len("pubsub."):]
+			desc = "(published through the EventBus) " + desc
+		}
 		for _, f := range fs {
 			if f.Fingerprint == fp {
 				return
@@ -60,7 +67,36 @@ func oracle(c core.Case, out []string) []core.Finding {
 		o := out[i]
 		m := kv(op)
 		key := m["c"] + " " + m["q"]
-		switch strings.Fields(op)[0] {
+		name := strings.Fields(op)[0]
+		// event-bus ops are the pubsub ops of the bus's own server; the published map is what
+		// validateAndStringifyEvents must produce (every attribute with a non-empty type and key,
+		// whatever its value or index flag) plus the reserved keys
+		isBus := strings.HasPrefix(name, "bus")
+		var busEv map[string][]string
+		if isBus {
+			key = "bus " + key
+			switch name {
+			case "bussub":
+				name = "sub"
+			case "busread":
+				name = "read"
+			case "bustx":
+				name = "pub"
+				id, _ := strconv.ParseInt(m["id"], 10, 64)
+				evs := decTxEvents(m["events"])
+				busEv = flattenAll(evs)
+				busEv["tm.event"] = append(busEv["tm.event"], "Tx")
+				busEv["tx.hash"] = append(busEv["tx.hash"], fmt.Sprintf("%X", txHash([]byte(unhx(m["tx"])))))
+				busEv["tx.height"] = append(busEv["tx.height"], strconv.FormatInt(id, 10))
+				busTxAllIndexed[int(id)] = allIndexed(evs)
+			case "bushdr":
+				name = "pub"
+				busEv = flattenAll(append(decTxEvents(m["begin"]), decTxEvents(m["end"])...))
+				busEv["tm.event"] = append(busEv["tm.event"], "NewBlockHeader")
+			}
+		}
+		inBus = isBus
+		switch name {
 		case "sub":
 			if o != "ok" {
 				if o == "err-already" && !registered[key] {
@@ -96,7 +132,13 @@ func oracle(c core.Case, out []string) []core.Finding {
 		case "pub":
 			id, _ := strconv.Atoi(m["id"])
 			ev := decEvents(m["ev"])
-			for _, s := range subs {
+			if isBus {
+				ev = busEv
+			}
+			for k, s := range subs {
+				if strings.HasPrefix(k, "bus ") != isBus {
+					continue
+				}
 				if s.status != "active" || !satisfies(s.q, ev) {
 					continue
 				}
@@ -121,6 +163,7 @@ func oracle(c core.Case, out []string) []core.Finding {
 				}
 				s.read++
 				s.pending--
+				s.got = append(s.got, id)
 			case o == "empty":
 				if s.read < len(s.expected) {
 					add("pubsub.send.subscriber-misses-matching-event", fmt.Sprintf("op %d: publication %d matches the subscriber's own query and its buffer had room, yet nothing arrived and the subscription is not cancelled", i, s.expected[s.read]))
@@ -194,6 +237,31 @@ func oracle(c core.Case, out []string) []core.Finding {
 				classHist[f.Fingerprint]++
 				add(f.Fingerprint, f.Desc)
 			}
+			// a subscriber of the same query and the index must agree on every tx that was both
+			// published and indexed with all its attributes marked for indexing
+			if strings.HasPrefix(o, "res") {
+				found := map[int]bool{}
+				for _, e := range strings.Split(strings.TrimPrefix(strings.TrimPrefix(o, "res"), " "), ",") {
+					if p := strings.SplitN(e, "/", 2); len(p) == 2 {
+						h, _ := strconv.Atoi(p[0])
+						found[h] = true
+					}
+				}
+				for k, s := range subs {
+					if !strings.HasPrefix(k, "bus ") || !strings.HasSuffix(k, " "+m["q"]) || s.status != "active" || s.read != len(s.expected) {
+						continue
+					}
+					got := map[int]bool{}
+					for _, id := range s.got {
+						got[id] = true
+					}
+					for id, all := range busTxAllIndexed {
+						if all && got[id] != found[id] {
+							add("eventbus.subscriber-and-index-disagree", fmt.Sprintf("op %d: tx %d (all attributes indexed) for query %q: delivered to the subscriber=%v, returned by the tx index=%v", i, id, unhx(m["q"]), got[id], found[id]))
+						}
+					}
+				}
+			}
 		case "bindex":
 			if o != "ok" {
 				continue
@@ -234,6 +302,35 @@ func reservedBlockKey(evs []abci.Event) bool {
 		}
 	}
 	return false
+}
+
+// flattenAll: composite key -> values for every attribute with a non-empty type and key
+func flattenAll(evs []abci.Event) map[string][]string {
+	out := map[string][]string{}
+	for _, e := range evs {
+		if e.Type == "" {
+			continue
+		}
+		for _, a := range e.Attributes {
+			if len(a.Key) == 0 {
+				continue
+			}
+			k := e.Type + "." + string(a.Key)
+			out[k] = append(out[k], string(a.Value))
+		}
+	}
+	return out
+}
+
+func allIndexed(evs []abci.Event) bool {
+	for _, e := range evs {
+		for _, a := range e.Attributes {
+			if e.Type != "" && len(a.Key) > 0 && !a.Index {
+				return false
+			}
+		}
+	}
+	return true
 }
 
 type idxItem struct {
